@@ -6,11 +6,16 @@ for d in sorted(glob.glob('/verif/seeded/*/')):
     m = json.load(open(d + 'meta.json'))
     conf = m.get('confirmed', {})
     ok = all(conf.values()) if conf else False
-    rows.append((m.get('name', os.path.basename(d[:-1])), m.get('property', '?'), m.get('summary', '').replace('|', '/'),
-                 m.get('needs', '').replace('|', '/'), ', '.join(m.get('checks_run', [])), ', '.join(m.get('detected_by', [])) or '—', 'yes' if ok else 'NO'))
-print('| seeded change | breaks | what was changed | needs | checks run (quick) | caught by | confirmed |')
-print('|---|---|---|---|---|---|---|')
+    run = m.get('checks_run', [])
+    det = m.get('detected_by', [])
+    # results of earlier runs of other checks are kept in 'also_detected_by' / 'also_missed_by'
+    det = sorted(set(det) | set(m.get('also_detected_by', [])))
+    miss = sorted((set(run) | set(m.get('also_missed_by', []))) - set(det))
+    summ = m.get('summary', '').replace('|', '/').replace('\n', ' ')
+    if len(summ) > 150:
+        summ = summ[:147] + '...'
+    rows.append((m.get('name', os.path.basename(d[:-1])), summ, ', '.join(det) or '—', ', '.join(miss) or '', 'yes' if ok else 'NO'))
+print('| seeded change | what was changed | caught by (quick tier) | ran, did not flag | confirmed |')
+print('|---|---|---|---|---|')
 for r in rows:
-    summ = r[2] if len(r[2]) < 220 else r[2][:217] + '...'
-    needs = r[3] if len(r[3]) < 200 else r[3][:197] + '...'
-    print('| %s | %s | %s | %s | %s | %s | %s |' % (r[0], r[1], summ, needs, r[4], r[5], r[6]))
+    print('| %s | %s | %s | %s | %s |' % r)
